@@ -13,8 +13,10 @@ One job = one cache state + one way of naming the cache directory:
   timestamp last_update.txt afterwards: absent / recent / old / garbage
   lock_held a live process holds the cache lock while the loads run
   via       'default' (nothing is said about the directory), 'set' (set_cache_directory(<spelling>)), 'arg' (the spelling is
-            given as xml_folder / local_hed_directory / cache_folder argument)
-  spelling  an equivalent way to write the default directory (no trailing slash, '..', relative, doubled slash ...)
+            given as xml_folder / local_hed_directory / cache_folder argument), 'set_arg' (set_cache_directory(<spelling>) AND
+            the folder argument in <arg_spelling>, by default the path as the package computes it)
+  spelling  an equivalent way to write the default directory (no trailing slash, '..', relative, doubled slash, a symbolic
+            link to it ...)
 Then, with the network off, a forked process calls get_hed_versions() and load_schema_version for EVERY bundled version
 (plain / one-element list / prefixed, lists with prefixes, merged libraries); each must succeed and equal the schema built
 from the bundled files.  Finally a complete population must leave all bundled files byte-identical.
@@ -31,17 +33,26 @@ from urllib.error import URLError
 warnings.filterwarnings("ignore")
 
 SPELLINGS = ("as computed", "no trailing slash", "trailing slash", "dot-dot", "doubled slash", "relative",
-             "relative with ./ and slash")
+             "relative with ./ and slash", "symlink", "symlink with slash", "symlink relative")
+LINK_NAME = "c19_link_to_cache"
 
 
 def spell(default_dir, name):
-    """an equivalent spelling of default_dir (POSIX); 'relative*' are relative to the HOME directory (the loader chdirs there)"""
+    """an equivalent spelling of default_dir (POSIX); 'relative*' are relative to the HOME directory (the loader chdirs there);
+    'symlink*' name a symbolic link <HOME>/c19_link_to_cache -> the cache directory (made here; a link to a cache directory
+    presupposes the directory, so the directory is made too if an earlier step has not left one)"""
     d = default_dir.rstrip("/")
     home = os.path.expanduser("~").rstrip("/")
     rel = os.path.relpath(d, home)
+    link = os.path.join(home, LINK_NAME)
+    if name.startswith("symlink"):
+        os.makedirs(d, exist_ok=True)
+        if not os.path.islink(link):
+            os.symlink(d, link)
     return {"as computed": default_dir, "no trailing slash": d, "trailing slash": d + "/",
             "dot-dot": d + "/../" + os.path.basename(d) + "/", "doubled slash": os.path.dirname(d) + "//" + os.path.basename(d),
-            "relative": rel, "relative with ./ and slash": "./" + rel + "/"}[name]
+            "relative": rel, "relative with ./ and slash": "./" + rel + "/",
+            "symlink": link, "symlink with slash": link + "/", "symlink relative": LINK_NAME}[name]
 
 
 # ------------------------------------------------------------------------------------------------------------
@@ -313,6 +324,11 @@ def loader(job, default_dir, forms):
         hc.set_cache_directory(sp)
     elif via == "arg":
         kw_load, args_dir = {"xml_folder": sp}, (sp,)
+    elif via == "set_arg":
+        # HED_CACHE_DIRECTORY holds one spelling, the folder argument another one (default: the path as the package computes it)
+        hc.set_cache_directory(sp)
+        sp2 = spell(default_dir, job.get("arg_spelling", "as computed"))
+        kw_load, args_dir = {"xml_folder": sp2}, (sp2,)
     obs = []
     for lib in (None, "all"):
         try:
@@ -430,7 +446,9 @@ def run_job(job, default_dir, traces, seed):
     if code != 0 or not isinstance(obs, list):
         fails.append(("C19.crash.load_after_interruption", inp, {"loader_process": code, "value": obs}, "the loads run"))
         obs = []
-    other_spelling = job.get("via") == "arg" and spell(default_dir, job.get("spelling", "as computed")) != default_dir
+    other_spelling = (job.get("via") == "arg" and spell(default_dir, job.get("spelling", "as computed")) != default_dir) or \
+        (job.get("via") == "set_arg" and spell(default_dir, job.get("spelling", "as computed")) !=
+         spell(default_dir, job.get("arg_spelling", "as computed")))
     for o in obs:
         if o.get("ok") and o.get("equal", True):
             continue
@@ -470,8 +488,10 @@ def run_job(job, default_dir, traces, seed):
 
         def repair():
             os.chdir(home)
-            if job.get("via") == "set":
+            if job.get("via") in ("set", "set_arg"):
                 hc.set_cache_directory(sp)
+            if job.get("via") == "set_arg":
+                return hc.cache_local_versions(spell(default_dir, job.get("arg_spelling", "as computed")))
             r = hc.cache_local_versions(sp if job.get("via") == "arg" else hc.get_cache_directory())
             return r
         code, rep = forked(repair)
